@@ -11,6 +11,7 @@ Oracle: nested dual numbers (oracle.ref_hess) on the real compile_hessian output
 from __future__ import annotations
 
 import math
+import zlib
 
 import numpy as np
 
@@ -83,6 +84,11 @@ def cases_for(rng, thorough):
             cases.append((vt, node, V, U))
         # the solver compiles the Hessian of the *negated* objective for maximisation (scipy_solver.py)
         cases.append((tag + "|negated", -node, list(own), U))
+    for tag, e in J.composition_exprs(U):
+        own = sorted({v.name: v for v in gen.expr_vars(e)}.values(), key=lambda v: v.name)
+        cases.append((f"{tag}|own", e, own, U))
+        if "powpow" in tag and zlib.crc32(tag.encode()) % 2 == 0:
+            cases.append((f"{tag}|super-rev", e, [U.scalars[2]] + list(reversed(own)), U))
     for tag, es, V, U2 in J.order_cover_cases(U, "hess"):
         if tag.split("|")[1] == "orders120" and not (tag.startswith(("ps3", "uslog", "uscos")) or thorough):
             continue
@@ -258,14 +264,36 @@ def run(ctx) -> core.Report:
                     mismatch("hessrun", tag, e, V, xs, params, got if isinstance(got, str) else got.tolist(), model)
                 else:
                     rep.skipped["ill-conditioned"] = rep.skipped.get("ill-conditioned", 0) + 1
-        fails, checked, skipped = check_numeric(e, V, xs)
-        rep.histogram["oracle_entries"] = rep.histogram.get("oracle_entries", 0) + checked
-        if skipped:
-            rep.skipped["irregular-or-ill-conditioned-point"] = rep.skipped.get("irregular-or-ill-conditioned-point", 0) + skipped
-        for f in fails:
-            f.update(J.payload_of([e], V, xs, params))
-            f["tag"] = tag
-            rep.oracle_failures.append(f)
+        # oracle points: the point sent to the model, every sign pattern for the compositions, one further random
+        # sign pattern for everything else
+        if tag.startswith("comp:"):
+            more = J.sign_points(rng, len(V))
+        elif V and covered and "orders" not in tag:
+            more = [[rng.choice((1.0, -1.0)) * rng.choice(J.MAGS) for _ in V]]
+        else:
+            more = []
+        for pt in [xs] + more:
+            fails, checked, skipped = check_numeric(e, V, pt, with_symbolic=(pt is xs or tag.startswith("comp:")))
+            rep.histogram["oracle_entries"] = rep.histogram.get("oracle_entries", 0) + checked
+            rep.histogram["oracle_points"] = rep.histogram.get("oracle_points", 0) + 1
+            if skipped:
+                rep.skipped["irregular-or-ill-conditioned-point"] = rep.skipped.get("irregular-or-ill-conditioned-point", 0) + skipped
+            for f in fails:
+                f.update(J.payload_of([e], V, pt, params))
+                f["tag"] = tag
+                rep.oracle_failures.append(f)
+        # call sequences on one compiled Hessian at regular points (answers must not depend on the call history)
+        if V and covered and want is not None and (thorough or "orders" not in tag or rng.random() < 0.25):
+            q = J.rand_x(rng, len(V), True)
+            sf, n_calls = J.check_sequences("hess", [e], V, J.light_sequences(xs, q, len(params)))
+            rep.histogram["sequence_calls"] = rep.histogram.get("sequence_calls", 0) + n_calls
+            for f in sf:
+                if oracle_hessian(e, V, f["x"]) is not None:
+                    f.update(J.payload_of([e], V, f["x"], params))
+                    f["tag"] = tag
+                    rep.oracle_failures.append(f)
+                else:
+                    rep.skipped["sequence-at-irregular-point"] = rep.skipped.get("sequence-at-irregular-point", 0) + 1
         if len(rep.samples) < 6 and len(outs[idx]) < 260 and outs[idx + 1] != "hessian_fn" and not outs[idx + 1].startswith("raise"):
             rep.samples.append({"tag": tag, "V": [v.name for v in V], "path": outs[idx + 1], "hessian": outs[idx]})
     return rep
@@ -273,6 +301,41 @@ def run(ctx) -> core.Report:
 
 def search(ctx, rep):
     rng = core.Rng(ctx["seed"] + 15485863)
+
+    def probe(tag, e, V, points):
+        for xs in points:
+            fails, _, _ = check_numeric(e, V, xs)
+            if fails:
+                f = fails[0]
+                try:
+                    f.update(J.payload_of([e], V, xs, J.all_params([e])))
+                except Unsupported:
+                    return None
+                f["tag"] = tag
+                return f
+        return None
+
+    # (1) rule / simplifier interaction family (powers of powers, functions of powers, …) at every sign pattern
+    U = gen.Universe(rng)
+    for tag, e in J.composition_exprs(U):
+        own = sorted({v.name: v for v in gen.expr_vars(e)}.values(), key=lambda v: v.name)
+        f = probe(tag, e, own, [p for _ in range(3) for p in J.sign_points(rng, len(own))])
+        if f:
+            return f
+    # (2) the disagreeing cases of this run at many sign patterns
+    seen = set()
+    for mm in rep.corr_mismatches[:300]:
+        key = (tuple(mm.get("exprs", [])), tuple(mm.get("V", [])))
+        if "exprs" not in mm or key in seen:
+            continue
+        seen.add(key)
+        try:
+            es, V, _ = J.rebuild(mm)
+        except Exception:  # noqa: BLE001
+            continue
+        f = probe(mm.get("tag", "mismatch"), es[0], V, [p for _ in range(4) for p in J.sign_points(rng, len(V))])
+        if f:
+            return f
     for rnd in range(4):
         for tag, e, V, U in cases_for(rng, True):
             for positive in (True, False):
@@ -291,6 +354,8 @@ def search(ctx, rep):
 
 def replay(payload) -> bool:
     f = payload["failure"]
+    if f.get("kind") == "call-sequence":
+        return J.replay_sequence(f)
     es, V, xs = J.rebuild(f)
     fails, checked, skipped = check_numeric(es[0], V, xs)
     print("entries checked:", checked, "skipped:", skipped)
